@@ -6,6 +6,7 @@ CONSTANTS
   T <- T_uni1
 INVARIANT BlocksPartition
 INVARIANT PivotIndependent
+INVARIANT CoherentDefsAgree
 INVARIANT IdenticalRankings
 PROPERTY Progress
 CHECK_DEADLOCK FALSE
